@@ -371,10 +371,47 @@ func (f *faultPlan) crashPoint(site string) {
 	}
 }
 
+// faultyDriver wraps the real memory driver with (a) injected write failures,
+// (b) crash points, and (c) the persistence semantics of the Secret/ConfigMap
+// backends: what is stored is a copy taken at Create/Update time, and reads hand
+// out copies, so that mutating a release object in memory does not change the
+// store until it is written (the memory driver alone stores the caller's pointer).
 type faultyDriver struct {
 	driver.Driver
 	f      *faultPlan
-	writes []string
+	writes  []string
+	created []int // revisions of the records created, in order
+	who     string
+}
+
+func cloneRelease(r *release.Release) *release.Release {
+	if r == nil {
+		return nil
+	}
+	c := *r
+	if r.Info != nil {
+		i := *r.Info
+		c.Info = &i
+	}
+	if r.Hooks != nil {
+		c.Hooks = make([]*release.Hook, len(r.Hooks))
+		for k, h := range r.Hooks {
+			hc := *h
+			hc.Events = append([]release.HookEvent(nil), h.Events...)
+			hc.DeletePolicies = append([]release.HookDeletePolicy(nil), h.DeletePolicies...)
+			c.Hooks[k] = &hc
+		}
+	}
+	c.Labels = copyStrMap(r.Labels)
+	return &c
+}
+
+func cloneAll(rs []*release.Release) []*release.Release {
+	out := make([]*release.Release, len(rs))
+	for k, r := range rs {
+		out[k] = cloneRelease(r)
+	}
+	return out
 }
 
 func (d *faultyDriver) Create(key string, rls *release.Release) error {
@@ -383,7 +420,10 @@ func (d *faultyDriver) Create(key string, rls *release.Release) error {
 	if d.f.fail("store.Create") {
 		return fmt.Errorf("injected: storage create failed")
 	}
-	return d.Driver.Create(key, rls)
+	if _, gerr := d.Driver.Get(key); gerr != nil { // a duplicate key is refused by the store itself
+		d.created = append(d.created, rls.Version)
+	}
+	return d.Driver.Create(key, cloneRelease(rls))
 }
 
 func (d *faultyDriver) Update(key string, rls *release.Release) error {
@@ -392,7 +432,7 @@ func (d *faultyDriver) Update(key string, rls *release.Release) error {
 	if d.f.fail("store.Update") {
 		return fmt.Errorf("injected: storage update failed")
 	}
-	return d.Driver.Update(key, rls)
+	return d.Driver.Update(key, cloneRelease(rls))
 }
 
 func (d *faultyDriver) Delete(key string) (*release.Release, error) {
@@ -401,7 +441,23 @@ func (d *faultyDriver) Delete(key string) (*release.Release, error) {
 	if d.f.fail("store.Delete") {
 		return nil, fmt.Errorf("injected: storage delete failed")
 	}
-	return d.Driver.Delete(key)
+	r, err := d.Driver.Delete(key)
+	return cloneRelease(r), err
+}
+
+func (d *faultyDriver) Get(key string) (*release.Release, error) {
+	r, err := d.Driver.Get(key)
+	return cloneRelease(r), err
+}
+
+func (d *faultyDriver) List(filter func(*release.Release) bool) ([]*release.Release, error) {
+	rs, err := d.Driver.List(filter)
+	return cloneAll(rs), err
+}
+
+func (d *faultyDriver) Query(labels map[string]string) ([]*release.Release, error) {
+	rs, err := d.Driver.Query(labels)
+	return cloneAll(rs), err
 }
 
 // ---- charts
@@ -458,6 +514,26 @@ func newWorld(f *faultPlan) *world {
 	w := &world{kube: newSymKube(f), mem: mem, f: f}
 	w.store = &faultyDriver{Driver: mem, f: f}
 	return w
+}
+
+// runOp runs one helm operation as its own "process": if it dies at a crash
+// point the harness carries on with what is stored.
+func (w *world) runOp(op func() error) (err error, crashed bool) {
+	done := make(chan error, 1)
+	go func() { done <- op() }()
+	select {
+	case e := <-done:
+		return e, false
+	case <-w.f.deadCh:
+		// the next operation is a new process
+		w.f.dead = false
+		w.f.deadCh = make(chan struct{})
+		return nil, true
+	}
+}
+
+func newFaultPlan(budget, crashes int, kinds string) *faultPlan {
+	return &faultPlan{budget: budget, crashes: crashes, kinds: kinds, deadCh: make(chan struct{})}
 }
 
 func (w *world) config() *Configuration {
